@@ -325,3 +325,32 @@ def report_only_v3(ctx, rep, rule):
     if n == 0:
         rep.missing(rule, "construction of SnmpPdu::Report")
     rep.check(rule, "PDU_REPORT", facts.const_value("snmp::PDU_REPORT") == 8, "tag 8", "PDU_REPORT = %s" % facts.const_value("snmp::PDU_REPORT"))
+
+
+def version_check(ctx, rep, rule):
+    """A message is accepted by a decoder only if its version field equals the decoder's own version."""
+    facts = ctx.facts
+    table = (("snmp::msg::v1::SnmpV1Message", "snmp::SNMP_V1", 0), ("snmp::msg::v2c::SnmpV2cMessage", "snmp::SNMP_V2C", 1),
+             ("snmp::msg::v3::msg::SnmpV3Message", "snmp::SNMP_V3", 3))
+    for adt, cname, want in table:
+        cv = facts.const_value(cname)
+        rep.check(rule, cname, cv == want, "%s = %d" % (cname, want), "%s = %s (RFC 3416 / RFC 3412 version numbers are 0, 1, 3)" % (cname, cv))
+        bs = [b for b in facts.body_list if b.path.startswith("<%s<" % adt) and "TryFrom<&'a [u8]>>::try_from" in b.path]
+        if not bs:
+            rep.missing(rule, "%s::try_from" % adt)
+            continue
+        body = bs[0]
+        rep.note_analysed("functions", [body.path])
+        prov = flow.Prov(body)
+        oks = flow.blocks_assigning_return(body, lambda rv: rv["k"] == "agg" and rv.get("vname") == "Ok")
+
+        def is_version(t):
+            return flow.mentions(t, lambda s: s[0] == "call" and (s[1] or "").endswith("from_ber")) and not flow.mentions(t, lambda s: s[0] == "f" and s[2] in ("length", "tag"))
+        edges, lines = flow.eq_const_edges(body, prov, is_version, want)
+        key = "%s::try_from|version" % adt
+        if not edges:
+            rep.violation(rule, key, "no test `version == %d` guards the successful decoding: messages of another SNMP version are "
+                          "accepted by this session" % want, body.loc(), obligation=True)
+        else:
+            rep.check(rule, key, cfg.must_pass(body, [0], oks, set(edges)), "Ok(..) only for version %d" % want,
+                      "a message can be decoded successfully without its version being %d" % want, body.loc(lines[0]), obligation=True)
